@@ -456,6 +456,31 @@ def run_property(prop_id, obligations, tier, level="model_checking", assumptions
             if r.status == "violated" and not any(v[0] is r.ob for v in violations):
                 r.status = "unconfirmed"
 
+        # thorough tier: a sample of the discharged obligations is decided a second time with another SAT back
+        # end (kissat instead of MiniSat); a different verdict makes the obligation inconclusive
+        solver_diff = None
+        if tier == "thorough" and os.environ.get("VERIF_NO_SOLVER_DIFF") != "1":
+            import copy, random
+            cand = [r for r in results if r.status == "discharged" and "--external-sat-solver" not in r.ob.flags and r.wall < 60]
+            random.Random(seed).shuffle(cand)
+            cand = cand[:12]
+
+            def _again(r):
+                ob2 = copy.copy(r.ob)
+                ob2.flags = list(r.ob.flags) + ["--external-sat-solver", "kissat"]
+                return r, check_one(ob2, scratch, default_timeout)
+
+            disagreements = []
+            if cand:
+                with cf.ThreadPoolExecutor(max_workers=JOBS) as ex:
+                    for r, r2 in ex.map(_again, cand):
+                        if r2.status != "discharged":
+                            disagreements.append(r.ob.key)
+                            r.status = "inconclusive"
+                            r.reason = "MiniSat: discharged, kissat: %s (%s)" % (r2.status, r2.reason[:120])
+            solver_diff = {"second_back_end": "kissat (--external-sat-solver)", "obligations_rechecked": len(cand),
+                           "disagreements": disagreements, "sample": [r.ob.key for r in cand[:4]]}
+
         n_ob = len(results)
         n_dis = sum(1 for r in results if r.status == "discharged")
         n_known = sum(1 for r in results if r.status == "known-finding")
@@ -509,6 +534,9 @@ def run_property(prop_id, obligations, tier, level="model_checking", assumptions
             "known_findings_seen": sorted(set(k["what"] for _, _, k in known_hits)),
             "note_states_transitions": "no state graph is explored by this technique, so no states/transitions counts are reported; obligations/discharged and cbmc_properties_checked are the measured quantities",
         }
+        if solver_diff is not None:
+            cov["second_back_end_recheck"] = solver_diff
+            cov["disagreements_checked"] = solver_diff["obligations_rechecked"]
         if extra_coverage:
             cov.update(extra_coverage)
         ev = {"property_id": prop_id, "tier": tier, "seed": seed, "level": level, "coverage": cov,
